@@ -1,4 +1,5 @@
 import Ledger.Driver.E2e
+import Ledger.E2e.Features
 
 /-!
 Handlers `features` (C35) and `multiledger` (C19) of the end-to-end leg: the real
@@ -15,6 +16,13 @@ namespace Ledger.Driver.E2e
 open Lean Ledger.Base Ledger.Core Ledger.Ctrl Ledger.Driver Ledger.Driver.Ctrl
 
 /-! ### features -/
+
+def featureSetOfJson (f : Json) : Ledger.E2e.FeatureSet :=
+  { movesHistory := optStrField f "MOVES_HISTORY" = "ON",
+    pcev := optStrField f "MOVES_HISTORY_POST_COMMIT_EFFECTIVE_VOLUMES" = "SYNC",
+    hashLogs := if optStrField f "HASH_LOGS" = "SYNC" then .sync else if optStrField f "HASH_LOGS" = "ASYNC" then .async else .disabled,
+    accMetaHist := optStrField f "ACCOUNT_METADATA_HISTORY" = "SYNC",
+    txMetaHist := optStrField f "TRANSACTION_METADATA_HISTORY" = "SYNC" }
 
 def strContains (s sub : String) : Bool := (s.splitOn sub).length > 1
 
@@ -34,6 +42,8 @@ structure SetRun where
   tainted : Option Nat := none
   resps : List Json := []
   derived : Json := Json.null
+  /-- the derived tables of `Ledger.E2e.derive`, folded over the model's successive core states -/
+  mDerived : Ledger.E2e.Derived := {}
   err : String := ""
 
 def runSet (strict : Bool) (ops : List Json) (s : Json) : Except String SetRun := do
@@ -49,7 +59,8 @@ def runSet (strict : Bool) (ops : List Json) (s : Json) : Except String SetRun :
       r := { r with tainted := some r.fs.i }
     else
       let fs ← stepHist strict r.fs i o
-      r := { r with fs := fs, resps := r.resps ++ [realResp (← field o "resp")] }
+      r := { r with fs := fs, resps := r.resps ++ [realResp (← field o "resp")],
+                    mDerived := Ledger.E2e.derive (featureSetOfJson feats) r.fs.state.db fs.state.db r.mDerived }
   return r
 
 def natD (j : Json) (k : String) : Nat := (natField j k).toOption.getD 0
@@ -102,10 +113,19 @@ def handleFeatures : Handler := fun inp out => do
       for (p, i, w) in r.fs.propFail do fails := fails ++ [(p, s!"[{label}] op {i}: {w}")]
       for (p, s) in r.fs.sigs do if want = "" || p = want then sigs := sigs ++ [s]
       if r.tainted.isSome then
-        sigs := sigs ++ ["C35:hash-sync-rejects-idempotency-key-with-backslash"]
+        if want = "" || want = "C35" then sigs := sigs ++ ["C35:hash-sync-rejects-idempotency-key-with-backslash"]
         tags := tags ++ ["left-common-history:backslash-key-under-HASH_LOGS=SYNC"]
       else
         for w in derivedRules r.feats r.derived do fails := fails ++ [("C35", s!"[{label}] {w}")]
+        -- the model of the derived tables (Ledger.E2e.derive) against the row counts of LeanPG's dump
+        if r.fs.mismatch.isNone && mismatch.isNone then
+          let md := r.mDerived
+          let mCounts := Json.mkObj [("moves", jNat md.moves.length), ("movesPcev", jNat (md.moves.filter (·.hasPcev)).length),
+            ("hashes", jNat md.hashed.length), ("accHist", jNat md.accHist.length), ("txHist", jNat md.txHist.length)]
+          let rCounts := Json.mkObj [("moves", jNat (natD r.derived "moves")), ("movesPcev", jNat (natD r.derived "movesPcev")),
+            ("hashes", jNat (natD r.derived "hashes")), ("accHist", jNat (natD r.derived "accHist")), ("txHist", jNat (natD r.derived "txHist"))]
+          if mCounts != rCounts then
+            mismatch := some { op := ops.length, field := s!"[{label}] derived-tables", model := mCounts, real := rCounts }
       match ref? with
       | none => pure ()
       | some ref =>
@@ -120,6 +140,24 @@ def handleFeatures : Handler := fun inp out => do
             fails := fails ++ [("C35", s!"[{label}] core table `{d}` differs from the one under [{featTag ref.feats}]")]
           if r.fs.state.seq != ref.fs.state.seq && r.fs.mismatch.isNone && ref.fs.mismatch.isNone then
             fails := fails ++ [("C35", s!"[{label}] sequences differ from those under [{featTag ref.feats}]")]
+  -- a derived table depends on its own feature(s) only: same content under every set that agrees on them
+  let okRuns := runs.filter (fun r => r.tainted.isNone && r.err = "")
+  let groupCheck (what digest : String) (key : Json → String) (on : Json → Bool) : List (String × String) :=
+    let rs := okRuns.filter (fun r => on r.feats)
+    match rs with
+    | [] => []
+    | r0 :: rest =>
+      rest.filterMap fun r =>
+        let sameKey := key r.feats = key r0.feats
+        if sameKey && optStrField r.derived digest ≠ optStrField r0.derived digest then
+          some ("C35", s!"[{featTag r.feats}] content of `{what}` differs from its content under [{featTag r0.feats}] although both sets agree on the feature(s) that govern it")
+        else none
+  -- moves (and their effective volumes): governed by MOVES_HISTORY + PCEV; compared within each PCEV value
+  for pc in ["SYNC", "DISABLED"] do
+    fails := fails ++ groupCheck "moves" "movesDigest" (fun _ => "") (fun f => optStrField f "MOVES_HISTORY" = "ON" && optStrField f "MOVES_HISTORY_POST_COMMIT_EFFECTIVE_VOLUMES" = pc)
+  fails := fails ++ groupCheck "logs.hash" "hashesDigest" (fun _ => "") (fun f => optStrField f "HASH_LOGS" = "SYNC")
+  fails := fails ++ groupCheck "accounts_metadata" "accHistDigest" (fun _ => "") (fun f => optStrField f "ACCOUNT_METADATA_HISTORY" = "SYNC")
+  fails := fails ++ groupCheck "transactions_metadata" "txHistDigest" (fun _ => "") (fun f => optStrField f "TRANSACTION_METADATA_HISTORY" = "SYNC")
   let sel (p : String) : Bool := want = "" || p = want
   let selFails := (fails.filter (sel ·.1)).map (fun (p, w) => s!"{p}: {w}")
   let sigs' := dedup sigs
@@ -283,7 +321,45 @@ def handleMulti : Handler := fun inp out => do
          tags := dedup tags,
          note := "; ".intercalate (selFails.take 5) }
 
+/-! ### httpe2e (C38, no-effect leg on the real stack) -/
+
+def routeFamily (route : String) : String :=
+  match route.splitOn " " with
+  | api :: method :: _ => api ++ " " ++ method
+  | _ => route
+
+def handleHttpE2e : Handler := fun inp out => do
+  let status : Int := match out.getObjVal? "status" with | .ok (.num n) => n.mantissa | _ => 0
+  let panic := optStrField out "panic"
+  let changed ← arrField out "changed"
+  let events ← arrField out "events"
+  let mut fails : List String := []
+  -- a non-atomic bulk answers 400 with one result per element when some element failed: the elements that
+  -- succeeded are committed writes of their own (C32), not an effect of a refused request
+  let bulkPartial := strContains (optStrField inp "route") "/_bulk" && optStrField out "errorCode" = "" &&
+    (optStrField out "bodyHead").startsWith "{\"data\":["
+  let refused := (status ≥ 400 && !bulkPartial) || panic ≠ "" || boolFieldD out "timeout"
+  if refused && !changed.isEmpty then
+    fails := fails ++ [s!"request answered {status} but changed {Json.arr changed.toArray |>.compress}"]
+  if refused && !events.isEmpty then
+    fails := fails ++ [s!"request answered {status} but published {events.length} event(s)"]
+  if panic ≠ "" then fails := fails ++ [s!"panic escaped the router: {panic.take 200}"]
+  let cls := if panic ≠ "" then "panic" else if boolFieldD out "timeout" then "timeout"
+    else if status < 0 then "unsendable" else s!"{status / 100}xx"
+  let mut_ := optStrField inp "mut"
+  let injected := mut_.startsWith "inject" || boolFieldD inp "missingLedger" || boolFieldD inp "outdated"
+  let expect := if injected then "" else optStrField inp "expect"
+  let tags := [s!"status:{cls}", s!"{routeFamily (optStrField inp "route")}:{cls}"] ++
+    (if expect = "4xx" then [s!"client-invalid:{cls}"] else []) ++
+    (if status ≥ 500 then [s!"5xx:{optStrField inp "route"}"] else []) ++
+    (if !changed.isEmpty then ["effect:" ++ cls] else []) ++ (if bulkPartial && status ≥ 400 then ["bulk-partial-results"] else [])
+  pure { model := Json.null, agree := true, prop := fails.isEmpty, propModel := true,
+         nontrivial := status ≥ 400 && status < 500,
+         tags := tags, note := "; ".intercalate fails,
+         sig := if fails.isEmpty then "" else s!"C38:effect-on-refused-request:{optStrField inp "route"}" }
+
 def handlers : List (String × Handler) := [
+  ("httpe2e", handleHttpE2e),
   ("sqlfault", handleSqlFault),
   ("features", handleFeatures),
   ("multiledger", handleMulti)
